@@ -105,6 +105,7 @@ pub struct Rec {
     pub step_digests: Vec<u64>,
     pub initial: Option<Obs>,
     pub steps: u64,
+    pub renders: Vec<String>,
 }
 
 #[derive(Clone, Copy, PartialEq, Eq, Debug)]
@@ -129,6 +130,7 @@ struct Machine {
     builtin_registered: bool,
     late_next: usize,
     real_limit: Option<u64>,
+    stack_start: Option<u64>,
 }
 
 fn install_dispatch(host: &Rc<RefCell<Host>>) {
@@ -230,7 +232,14 @@ impl Machine {
 fn build(sc: &Sc, rng_seed: u64, set_limit: bool) -> Result<Machine, String> {
     install_ax_rng(rng_seed);
     let code = from_hex(&sc.code);
-    let ax = match catch(|| Axecutor::new(&code, sc.code_start, sc.entry)) {
+    let made = if sc.symbols.is_empty() {
+        catch(|| Axecutor::new(&code, sc.code_start, sc.entry))
+    } else {
+        // the same program as a static ELF image whose symbol table names (several times over) addresses inside the code
+        let image = crate::e2::image_for(sc);
+        catch(|| Axecutor::from_binary(&image))
+    };
+    let ax = match made {
         Ok(Ok(a)) => a,
         Ok(Err(e)) => return Err(format!("new: {e}")),
         Err(p) => return Err(format!("new panicked: {}", p.msg)),
@@ -260,7 +269,7 @@ fn build(sc: &Sc, rng_seed: u64, set_limit: bool) -> Result<Machine, String> {
         inside_added: Vec::new(),
     }));
     let mut m = Machine {
-        code_end: sc.code_start + code.len() as u64,
+        code_end: if sc.symbols.is_empty() { sc.code_start + code.len() as u64 } else { 0 },
         ax,
         host,
         reg: Registry::default(),
@@ -269,10 +278,11 @@ fn build(sc: &Sc, rng_seed: u64, set_limit: bool) -> Result<Machine, String> {
         builtin_registered: false,
         late_next: 0,
         real_limit: sc.limit,
+        stack_start: None,
     };
     let r: Result<Result<(), String>, Panicked> = catch(|| {
         if let Some(len) = sc.stack_len {
-            m.ax.init_stack(len).map_err(|e| format!("init_stack: {e}"))?;
+            m.stack_start = Some(m.ax.init_stack(len).map_err(|e| format!("init_stack: {e}"))?);
             m.rsp0 = Some(m.ax.reg_read_64(SupportedRegister::RSP).map_err(|e| e.to_string())?);
         }
         for d in sc.data.iter() {
@@ -384,7 +394,8 @@ fn apply_actions(sc: &Sc, m: &mut Machine, done: &mut Vec<bool>, ctx: &mut Ctx, 
                 render_check(&mut m.ax, ctx, "boundary", oracles);
             }
             "prot" => {
-                let r = catch(|| m.ax.mem_prot(a.area, a.prot));
+                let target = if a.area == 1 { m.stack_start.unwrap_or(0) } else { a.area };
+                let r = catch(|| m.ax.mem_prot(target, a.prot));
                 if matches!(r, Ok(Ok(()))) {
                     ctx.fault("perm_revoke_midrun");
                 }
@@ -512,7 +523,7 @@ fn post_mortem(sc: &Sc, m: &mut Machine, end: &End, ctx: &mut Ctx, oracles: bool
 }
 
 fn finish_rec(m: &Machine, end: End, errors: Vec<String>, step_digests: Vec<u64>, initial: Option<Obs>, steps: u64) -> Rec {
-    Rec { end, errors, obs: Some(observe(&m.ax)), hook_log: m.host.borrow().log.clone(), step_digests, initial, steps }
+    Rec { end, errors, obs: Some(observe(&m.ax)), hook_log: m.host.borrow().log.clone(), step_digests, initial, steps, renders: vec![] }
 }
 
 /// Step-driven machine with (optionally) all per-step oracles.
@@ -520,7 +531,7 @@ fn drive_step(sc: &Sc, rng_seed: u64, ctx: &mut Ctx, oracles: bool, record_diges
     let mut m = match build(sc, rng_seed, true) {
         Ok(m) => m,
         Err(e) => {
-            return Rec { end: End::Construct(e), errors: vec![], obs: None, hook_log: vec![], step_digests: vec![], initial: None, steps: 0 };
+            return Rec { end: End::Construct(e), errors: vec![], obs: None, hook_log: vec![], step_digests: vec![], initial: None, steps: 0, renders: vec![] };
         }
     };
     install_dispatch(&m.host);
@@ -720,9 +731,28 @@ fn drive_step(sc: &Sc, rng_seed: u64, ctx: &mut Ctx, oracles: bool, record_diges
                     ctx.fault("guest_fault");
                 }
                 if oracles {
-                    // no claim about the failed instruction; the tracer re-synchronises
-                    tracer.entries = m.ax.verif_trace().iter().map(|t| (t.instr_ip, t.target, t.variant, t.level, t.count)).collect();
-                    tracer.stack = m.ax.verif_call_stack();
+                    let actual: Vec<(u64, u64, u8, i16, u64)> = m.ax.verif_trace().iter().map(|t| (t.instr_ip, t.target, t.variant, t.level, t.count)).collect();
+                    let actual_stack = m.ax.verif_call_stack();
+                    let after_hook_failed = evs.iter().any(|e| !e.before && e.answer == "E");
+                    if let (Some(i), true) = (ins, after_hook_failed) {
+                        // the instruction itself completed (its after-hook failed): it is traced like any other
+                        let top_ret = i.mnemonic() == Mnemonic::Ret && m.rsp0 == Some(pre_rsp);
+                        c18_check(ctx, &mut tracer, &m.ax, &i, &mn_name, post_rip, top_ret && post_fin, before_stopped);
+                    } else if !before_stopped {
+                        // the instruction did not complete (guest fault, fetch fault or failing before-hook):
+                        // no transfer was taken, so the trace and the call stack describe the same execution as before
+                        if actual != tracer.entries {
+                            ctx.dev("C18", format!("C18|entry_spurious|failed_instruction|{mn_name}"), format!("{mn_name} at {pre_rip:#x} failed, yet the trace changed: tail {:?}, before {:?}", actual.last(), tracer.entries.last()));
+                        }
+                        if actual_stack != tracer.stack {
+                            ctx.dev("C18", format!("C18|callstack|failed_instruction|{mn_name}"), format!("{mn_name} at {pre_rip:#x} failed, yet the call stack changed: {:x?} vs {:x?}", actual_stack, tracer.stack));
+                        }
+                        if ins.map(|i| matches!(i.mnemonic(), Mnemonic::Call | Mnemonic::Ret | Mnemonic::Jmp)).unwrap_or(false) {
+                            ctx.probe("failed_control_transfer");
+                        }
+                    }
+                    tracer.entries = actual;
+                    tracer.stack = actual_stack;
                     render_check(&mut m.ax, ctx, "after_err", true);
                 }
                 if post_fin {
@@ -769,6 +799,20 @@ fn drive_step(sc: &Sc, rng_seed: u64, ctx: &mut Ctx, oracles: bool, record_diges
         }
     }
     let final_obs_before_pm = observe(&m.ax);
+    let mut renders: Vec<String> = Vec::new();
+    if record_digests && !matches!(end, End::Panic(_)) {
+        renders.push(catch(|| m.ax.trace().unwrap_or_else(|e| e.to_string())).unwrap_or_else(|p| p.msg));
+        renders.push(catch(|| m.ax.call_stack().unwrap_or_else(|e| e.to_string())).unwrap_or_else(|p| p.msg));
+        for (_, _, names) in sc.symbols.iter().take(8).map(|(o, n)| (o, n, ())) {
+            let _ = names;
+        }
+        for (off, _) in sc.symbols.iter() {
+            renders.push(format!("{:?}", m.ax.resolve_symbol(sc.code_start + off)));
+        }
+        for r in renders.iter() {
+            ctx.log_u64(fnv1a(r.as_bytes()));
+        }
+    }
     if !matches!(end, End::Panic(_)) {
         post_mortem(sc, &mut m, &end, ctx, oracles);
     }
@@ -778,6 +822,7 @@ fn drive_step(sc: &Sc, rng_seed: u64, ctx: &mut Ctx, oracles: bool, record_diges
     }
     let mut rec = finish_rec(&m, end, errors, step_digests, Some(initial), steps);
     rec.obs = Some(final_obs_before_pm);
+    rec.renders = renders;
     set_dispatch(None);
     rec
 }
@@ -1155,7 +1200,7 @@ fn drive_exec(sc: &Sc, rng_seed: u64, ctx: &mut Ctx, cuts: &[u64]) -> Rec {
     let mut m = match build(sc, rng_seed, false) {
         Ok(m) => m,
         Err(e) => {
-            return Rec { end: End::Construct(e), errors: vec![], obs: None, hook_log: vec![], step_digests: vec![], initial: None, steps: 0 };
+            return Rec { end: End::Construct(e), errors: vec![], obs: None, hook_log: vec![], step_digests: vec![], initial: None, steps: 0, renders: vec![] };
         }
     };
     install_dispatch(&m.host);
@@ -1281,6 +1326,10 @@ fn compare(ctx: &mut Ctx, prop: &str, what: &str, a: &Rec, b: &Rec, mask: Option
             return;
         }
     }
+    if a.renders != b.renders {
+        ctx.dev(prop, format!("{prop}|{what}|render_text"), format!("trace() / call_stack() / resolve_symbol() texts differ between the machines:\n--- {:?}\n+++ {:?}", a.renders.iter().zip(b.renders.iter()).find(|(x, y)| x != y).map(|x| x.0), a.renders.iter().zip(b.renders.iter()).find(|(x, y)| x != y).map(|x| x.1)));
+        return;
+    }
     if let (Some(oa), Some(ob)) = (&a.obs, &b.obs) {
         match mask {
             None => {
@@ -1367,7 +1416,7 @@ fn compare(ctx: &mut Ctx, prop: &str, what: &str, a: &Rec, b: &Rec, mask: Option
 pub fn run(prop: &str, sc: &Sc, ctx: &mut Ctx) {
     for p in [
         "step_cap_hit", "finish_code_end", "finish_top_level_ret", "finish_hook_stop", "after_hooks_on_finishing_instruction",
-        "negative_trace_level", "trace_count_collapsed", "return_with_empty_call_stack", "register_after_hook_error", "return_traced",
+        "negative_trace_level", "trace_count_collapsed", "return_with_empty_call_stack", "register_after_hook_error", "return_traced", "failed_control_transfer", "symbols_from_image",
     ] {
         ctx.probes.entry(p.to_string()).or_insert(0);
     }
